@@ -909,9 +909,10 @@ func vfC17ApiCallAcrossShutdown(rec *evid.Rec, ep int) {
 // was raised and lowered again at runtime. Timers are involved, so the verdict is RELATIVE: a control
 // server with the same final IdleTimeout that was never reconfigured runs in the same process under
 // the same load. Both get an idle connection at the same moment. If the control's connection is
-// reaped after tc, the reconfigured server's connection must be reaped too by 3 x tc + 75 s (the
-// reaper's ticks are at most a minute apart, so a lowered IdleTimeout is in force after a minute at
-// the latest); if the control itself is not reaped within 60 s the episode is inconclusive.
+// reaped after tc, the reconfigured server's connection must be reaped too by 3 x tc + 15 s (its
+// reaper was seen working at the short interval before the detour); if the control itself is not
+// reaped within 60 s, or the bound would reach the connection loop's own 30 s read deadline, the
+// episode is inconclusive.
 func vfC17IdleAfterReconfiguration(rec *evid.Rec, ep int) {
 	final := []time.Duration{200 * time.Millisecond, 400 * time.Millisecond}[ep%2]
 	detour := []time.Duration{time.Hour, 10 * time.Minute, 3 * time.Minute}[ep%3]
@@ -934,9 +935,32 @@ func vfC17IdleAfterReconfiguration(rec *evid.Rec, ep int) {
 		return
 	}
 	defer func() { control.srv.Stop(); control.Close(); recon.srv.Stop(); recon.Close() }()
-	// let the reaper loops start and tick with the initial setting first (a loop that starts after
-	// the raise would legitimately begin with its longest interval, one minute)
-	time.Sleep(4 * final)
+	// First see the reconfigured server's reaper at work with the initial setting: a throw-away idle
+	// connection must be reaped (a loop that only starts after the raise would legitimately begin
+	// with its longest interval, one minute - that is not what is being examined here).
+	if pre, err := vfDialRM(rport); err == nil {
+		pre.call(vfProgNFS, 0, nil)
+		t0 := time.Now()
+		gone := false
+		buf := make([]byte, 1)
+		for time.Since(t0) < 20*time.Second {
+			pre.c.SetReadDeadline(time.Now().Add(50 * time.Millisecond))
+			if _, err := pre.c.Read(buf); err != nil {
+				if ne, ok := err.(net.Error); !ok || !ne.Timeout() {
+					gone = true
+					break
+				}
+			}
+		}
+		pre.c.Close()
+		if !gone {
+			rec.Inconclusive(1)
+			return
+		}
+	} else {
+		rec.Inconclusive(1)
+		return
+	}
 	// the detour: raise, let the loop tick a few times, lower again
 	recon.nfs.UpdateTuningOptions(func(t *TuningOptions) { t.IdleTimeout = detour })
 	time.Sleep(3 * final)
@@ -975,9 +999,15 @@ func vfC17IdleAfterReconfiguration(rec *evid.Rec, ep int) {
 		return
 	}
 	rec.Eval(1)
-	// the reaper re-reads the setting at its ticks, which are never more than a minute apart: a
-	// lowered IdleTimeout is in force after a minute at the latest
-	bound := 3*tc + 75*time.Second
+	// the reaper was seen ticking at the short interval before the detour and never lengthens its
+	// interval beyond a minute, so it still ticks at the short interval: the connection goes about
+	// as fast as the control's. (The bound stays below the connection loop's own 30 s read
+	// deadline, which would close an idle connection whatever the reaper does.)
+	bound := 3*tc + 15*time.Second
+	if bound > 25*time.Second {
+		rec.Inconclusive(1)
+		return
+	}
 	if _, ok := closedAt(rc.c, bound); !ok {
 		recon.srv.connMutex.Lock()
 		diag := fmt.Sprintf("tuning.IdleTimeout=%v activeConns=%d", recon.nfs.tuning.Load().IdleTimeout, len(recon.srv.activeConns))
